@@ -130,7 +130,7 @@ func runC03(o Opts) error {
 			apiCase(s, cfg, oc, Script{Kind: "error"}, "seq/"+pathNames[path]+"/driver-error", nil, true)
 		}
 	}
-	if o.Replay == "" {
+	if s.ReplayWants("net-") {
 		netC03(s, o.Tier)
 	}
 	return s.Close()
@@ -199,7 +199,7 @@ func runC11(o Opts) error {
 		}
 	}
 	apiCase(s, Cfg{}, gd, Script{Kind: "error"}, "discovery/driver-error", nil, false)
-	if o.Replay == "" {
+	if s.ReplayWants("net-") {
 		netC11(s, o.Tier)
 	}
 	return s.Close()
